@@ -297,3 +297,103 @@ Theorem skipped_canonicalisation_formats_refuted :
 Proof. vm_compute. split; discriminate. Qed.
 Print Assumptions skipped_canonicalisation_refuted.
 Print Assumptions skipped_canonicalisation_formats_refuted.
+
+(* ------------------------------------------------------------------ seeded change C17-6: toLowerCaseInterface
+   returns a list as it is when the field info has no children ("nothing to convert") — but a MAP layer has no
+   children either, and struct keys below it stay as written. *)
+Fixpoint lc_val_pin6 (v : jv) (i : finfo) {struct v} : jv :=
+  match v with
+  | JObj o =>
+    JObj ((fix go (o : list (string * jv)) : list (string * jv) :=
+             match o with
+             | [] => []
+             | (k, x) :: r =>
+               (let lk := lower k in
+                match lookup lk (fi_children i) with
+                | Some ti => (lk, lc_val_pin6 x ti)
+                | None =>
+                  match fi_mapf i with
+                  | Some mi => (k, lc_val_pin6 x mi)
+                  | None => (k, match x with JObj _ => lc_val_pin6 x i | _ => x end)
+                  end
+                end) :: go r
+             end) o)
+  | JArr [] => match fi_children i with [] => v | _ => JArr [JNull] end
+  | JArr l => match fi_children i with [] => v | _ => JArr (map (fun x => lc_val_pin6 x i) l) end
+  | _ => v
+  end.
+
+Definition conf_load_pin6 (T : fields) (j : option jv) : result gval :=
+  match info_fields T fi_empty with
+  | None => Err ETag
+  | Some info =>
+    match j with
+    | Some (JObj o) =>
+      unmarshal fixed ccfg (lower_fields T)
+                (Some (match lc_val_pin6 (JObj o) info with JObj o' => JObj o' | x => x end))
+    | _ => Err EDoc
+    end
+  end.
+Definition load_pin6 (T : fields) (f : fmt) (d : doc) : result gval := conf_load_pin6 T (Some (shape rf_go f d)).
+
+(* Groups []map[string]struct{ Host string } *)
+Definition t_groups : fields :=
+  FCons "Groups" None (TSlice (TMap (TStruct (FCons "Host" None (TPrim KStr) FNil)))) FNil.
+Definition d_groups (h : string) : doc :=
+  DMap (DMcons "Groups" (DList (DLcons (DMap (DMcons "Primary" (DMap (DMcons h (DStr "h1") DMnil)) DMnil)) DLnil)) DMnil).
+
+Theorem list_shortcut_refuted : forall f,
+  tr_top t_groups (d_groups "host") (d_groups "Host") = true /\
+  load_pin6 t_groups f (d_groups "host") = Ok (VStruct [VSlice [VMap [("Primary", VStruct [VStr "h1"])]]]) /\
+  load_pin6 t_groups f (d_groups "Host") = Err ENotSet /\
+  load_doc rf_go t_groups f (d_groups "Host") = load_doc rf_go t_groups f (d_groups "host").
+Proof. intro f. destruct f; vm_compute; repeat split. Qed.
+
+(* ------------------------------------------------------------------ seeded change C17-5: float FIELDS refuse a
+   number text with a '+' (the exponent sign encoding/json always writes from 1e21 on): TOML's re-rendering of
+   2.5e22 is refused, JSON's own text and YAML's positional digits are accepted.  Pinned at the level of the
+   tree handed to the loader (every number text with a '+' is refused). *)
+Fixpoint str_has_plus (s : string) : bool :=
+  match s with EmptyString => false | String c r => (N_of_ascii c =? 43)%N || str_has_plus r end.
+Fixpoint jv_has_plus (v : jv) {struct v} : bool :=
+  match v with
+  | JNum s => str_has_plus s
+  | JArr l => existsb jv_has_plus l
+  | JObj o => (fix go (o : list (string * jv)) : bool := match o with [] => false | (_, x) :: r => jv_has_plus x || go r end) o
+  | _ => false
+  end.
+Definition load_pin5 (T : fields) (f : fmt) (d : doc) : result gval :=
+  let j := shape rf_go f d in if jv_has_plus j then Err EConv else conf_load T (Some j).
+
+Definition t_limit : fields := FCons "Limit" None (TPrim KF64) FNil.
+Definition d_limit : doc := DMap (DMcons "Limit" (DFloat "2.5e22") DMnil).
+
+Theorem exponent_sign_refuted :
+  leaves_ok rf_go d_limit = true /\ float_positions_ok t_limit d_limit = true /\
+  load_pin5 t_limit FToml d_limit = Err EConv /\
+  load_pin5 t_limit FJson d_limit = load_doc rf_go t_limit FJson d_limit /\
+  load_pin5 t_limit FYaml d_limit = load_doc rf_go t_limit FYaml d_limit /\
+  (exists x, load_doc rf_go t_limit FToml d_limit = Ok (VStruct [VFloat x])).
+Proof. vm_compute. repeat split. eexists. reflexivity. Qed.
+
+(* ------------------------------------------------------------------ seeded change C17-7: the JSON path accepts an
+   integral float literal for an integer field through float64 with a range test whose upper bound rounds UP to
+   2^63: a literal denoting 2^63 is accepted and wraps to -2^63, while YAML / TOML hand over the digits and
+   ParseInt reports the range error.  Pinned as a re-rendering of the JSON path ([leaves_ok] fails for it). *)
+Definition rf_pin7 (f : fmt) (s : string) : string :=
+  match f with
+  | FJson => if integral_lit s && (lit_value s =? 2 ^ 63) then "-9223372036854775808" else s
+  | _ => rf_go f s
+  end.
+Definition t_big : fields := FCons "n" None (TPrim (KInt W64)) FNil.
+Definition d_big : doc := DMap (DMcons "n" (DFloat "9223372036854775808.0") DMnil).
+
+Theorem float_range_bound_refuted :
+  float_positions_ok t_big d_big = true /\ leaves_ok rf_go d_big = true /\ leaves_ok rf_pin7 d_big = false /\
+  load_doc rf_pin7 t_big FJson d_big = Ok (VStruct [VInt (- 2 ^ 63)]) /\
+  load_doc rf_pin7 t_big FYaml d_big = Err EConv /\ load_doc rf_pin7 t_big FToml d_big = Err EConv /\
+  load_doc rf_go t_big FJson d_big = Err EConv.
+Proof. vm_compute. repeat split. Qed.
+Print Assumptions list_shortcut_refuted.
+Print Assumptions exponent_sign_refuted.
+Print Assumptions float_range_bound_refuted.
